@@ -185,6 +185,8 @@ class Interp:
             d = self.combined(mod, raw, name)
             v = self.solve(a, g, d, self.method(), lam_inv, lam_use)
             vs[name], ds[name] = v, d
+            info.setdefault('AG', {})[name] = (a, g)
+            info['lams'] = (lam_inv, lam_use)
             lam = lam_use if self.method() == 'eigen' else lam_inv
             la = torch.linalg.eigvalsh((a + a.t()) / 2).max().item()
             lg = torch.linalg.eigvalsh((g + g.t()) / 2).max().item()
